@@ -77,7 +77,7 @@ func kernelConfigs(prop, tier string) []kernelCfg {
 	}
 	cfgs = []kernelCfg{
 		{prop, "icmp-flood", []string{"-P", "icmp"}, false, nil, true, "", ""},
-		{prop, "udp-flood", []string{"-P", "udp"}, false, nil, true, "", ""},
+		{prop, "udp-flood", []string{"-P", "udp", "-v"}, false, nil, true, "", ""}, // -v: trace logging sees the flood too
 		{prop, "tcp-sack-flood", []string{"-P", "tcp", "-p", "8080", "--tcp-method", "sack"}, false, nil, true, "", ""},
 	}
 	if tier == "thorough" {
